@@ -1524,6 +1524,15 @@ def _spread_constant_kwargs(fn: ast.FunctionDef) -> int:
         call.keywords[pos:pos + 1] = [ast.keyword(arg=key, value=copy.deepcopy(val)) for key, val in items]
         done += 1
     if done:
+        # a dict that was only spread is no longer read: its display goes too (it would look like a discarded computation)
+        still = {n.id for n in ast.walk(fn) if isinstance(n, ast.Name) and isinstance(n.ctx, ast.Load)}
+        dead = {id(cands[nm][0]) for nm in cands if nm not in still and nm not in other}
+        if dead:
+            for holder in ast.walk(fn):
+                for fld in ('body', 'orelse', 'finalbody'):
+                    blk = getattr(holder, fld, None)
+                    if isinstance(blk, list) and any(id(x) in dead for x in blk):
+                        blk[:] = [x for x in blk if id(x) not in dead] or [ast.Pass()]
         ast.fix_missing_locations(fn)
     return done
 
